@@ -179,3 +179,61 @@ func (w *WaitGroup) Wait() {
 	}
 	w.real.Wait()
 }
+
+// Cond stands in for sync.Cond. Inside a run Wait releases L, parks the task
+// until Signal or Broadcast, and re-acquires L; the happens-before edges are
+// those of L, as in a correct use of the real type.
+type Cond struct {
+	L       sync.Locker
+	real    *sync.Cond
+	waiting int
+	tickets int // wake-ups granted and not yet consumed
+}
+
+// NewCond is sync.NewCond.
+func NewCond(l sync.Locker) *Cond { return &Cond{L: l, real: sync.NewCond(l)} }
+
+//go:norace
+func (c *Cond) Wait() {
+	if !active {
+		c.real.Wait()
+		return
+	}
+	addr := uintptr(unsafe.Pointer(c))
+	c.waiting++
+	c.L.Unlock()
+	for c.tickets == 0 {
+		if !blockOn(addr) {
+			break
+		}
+	}
+	if c.tickets > 0 {
+		c.tickets--
+	}
+	c.waiting--
+	c.L.Lock()
+}
+
+//go:norace
+func (c *Cond) Signal() {
+	if !active {
+		c.real.Signal()
+		return
+	}
+	if c.waiting > c.tickets {
+		c.tickets++
+		wake(uintptr(unsafe.Pointer(c)))
+	}
+}
+
+//go:norace
+func (c *Cond) Broadcast() {
+	if !active {
+		c.real.Broadcast()
+		return
+	}
+	if c.waiting > c.tickets {
+		c.tickets = c.waiting
+		wake(uintptr(unsafe.Pointer(c)))
+	}
+}
